@@ -1,13 +1,15 @@
 // C17 harness: NetModel / MatrixCreator / solvers / Circuit::placeGlobal from /repo's working tree.
 // MatrixCreator is defined in net_model.cpp, so that file is #included (the archive member net_model.o is then
 // never pulled in by the linker: every symbol it defines is defined here, from the same source).
-//   quad gen asm SEED COUNT     quad gen solve SEED COUNT     quad gen place SEED COUNT
+//   quad gen asm SEED COUNT     quad gen solve SEED COUNT     quad gen place SEED COUNT     quad gen fasm SEED COUNT
+//   quad gen coin SEED COUNT (ASM lines) / fcoin (FASM lines) / scoin (SOLVE lines, kinds 1..4): EXACT coincidences of pin positions, see genCoin
 //   quad run < cases
 // A rational is "num e" = num / 2^e (e >= 0, |num| < 2^24): exactly a float.
 // ASM mode nbCells eps nNets { nPins w {cell off}*nPins fx [mn mx] }*nNets npl {pl}*npl pen [cutoff {target strength}*nbCells]
 //   mode: 0 createStar(topo) 1 B2B 2 Star 3 Clique 4 LightStar (create(topo,pl,eps,model)) 5 addBipoint(net) 6 addClique(net)
 //   fx=1: 5-argument addNet with finite minPin/maxPin; fx=0: 3-argument addNet
 //   result: "n | r c num e;... | num e;... (rhs) | (initial) | (netWeight read back) # IX=<FE_INEXACT raised> H=<OK|BAD ...>"
+//   (a value that is not finite is printed "inf 0", "-inf 0" or "nan 0", one above 2^62 "huge 0")
 //   (system after finalize(); H = the harness's own homogeneity test: weights and strengths times 2 and times 1/2 must give
 //    exactly 2 / 0.5 times every triplet and rhs entry before finalize())
 // SOLVE kind tol maxit <ASM body>   kind: 0 solveStar(params) 1 solve 2 solveWithPenalty 3 solveStar(pl) 4 solveB2B(pl,tg,st)
@@ -40,7 +42,7 @@ struct Rd { std::vector<long long> v; size_t p = 0; long long nx() { if (p >= v.
 
 static std::string showf(float v) {
   if (v == 0.0f) return "0 0";
-  if (!std::isfinite(v)) return "nan 0";
+  if (!std::isfinite(v)) return std::isnan(v) ? "nan 0" : (v > 0 ? "inf 0" : "-inf 0");
   int ex; float m = std::frexp(v, &ex);
   long long mant = (long long)std::ldexp(m, 24); int e2 = ex - 24;
   while (mant % 2 == 0) { mant /= 2; ++e2; }
@@ -286,11 +288,98 @@ static std::string genBody(SplitMix &g, bool dyadic, int mode, bool wantPen, boo
   return s.str();
 }
 
+// EXACT coincidences (streams "coin" -> ASM lines, "fcoin" -> FASM lines), models 1..4 (the ones that linearise around a placement).
+// Every position is a small multiple of 2^-u (u = 2 dyadic, 6 general), so pl[c] + off is computed without rounding and two pins meant
+// to coincide are bit-for-bit equal floats.  Net shapes: 0 all pins at one position, movable only; 1 the same with fixed pin(s)
+// (cell -1 in the list and/or the 5-argument addNet with minPin == maxPin); 2 two coincident movable pins, the others elsewhere;
+// 3 a movable pin on a fixed pin, the others elsewhere; 4 all at one position but one pin at distance eps/2, eps, 2 eps or one unit
+// (the floor active on a non-zero distance / exactly at its threshold); 5 unconstrained.  Cells: all stacked at one position, two
+// stacks, or free; penalty targets exactly at the placement (distance 0 against the cutoff floor) in 40 % of the cells.
+static std::string genCoin(SplitMix &g, bool dyadic, int mode, bool wantPen, bool small = false) {
+  std::ostringstream s;
+  int u = dyadic ? 2 : 6; long long U = 1LL << u;
+  int nc = (int)g.uni(1, small ? 4 : 6);        // small: the cases evaluated by vm_compute inside Coq (fcoin)
+  int stack = (int)g.uni(0, 2);
+  long long A = U * g.uni(-16, 16), D = U << g.uni(0, 3);
+  auto rp = [&]() -> long long { return dyadic ? A + D * g.uni(0, 2) : g.uni(-40 * U, 40 * U); };
+  long long s0 = rp(), s1 = rp();
+  std::vector<long long> pl(nc);
+  for (auto &p : pl) p = stack == 0 ? s0 : stack == 1 ? (g.coin(50) ? s0 : s1) : (dyadic ? U * g.uni(-20, 20) : g.uni(-20 * U, 20 * U));
+  long long epsU = dyadic ? (1LL << g.uni(0, 6)) : g.uni(7, 640);                    // eps in {1/4 .. 16} / [0.1, 10], in units
+  s << mode << " " << nc << " " << qstr(epsU, u);
+  int nn = (int)g.uni(1, small ? 2 : 4);
+  s << " " << nn;
+  for (int n = 0; n < nn; ++n) {
+    int np;
+    if (dyadic) { static const int p1[] = {3, 3, 5, 9}, p2[] = {3, 3, 4, 5, 6}; np = (mode == 1 || mode == 4) ? p1[g.uni(0, 3)] : mode == 2 ? p2[g.uni(0, 4)] : 3; }
+    else np = (int)g.uni(3, small ? 5 : 7);
+    if (g.coin(15)) np = 2;
+    int shape = (int)g.uni(0, 5);
+    long long P = rp();
+    std::vector<std::pair<int, long long>> pins; bool fx = false; long long mn = 0, mx = 0;
+    auto rc = [&]() { return (int)g.uni(0, nc - 1); };
+    int fv = (int)g.uni(0, 2);                                                        // how the fixed pin is given (shapes 1, 3, 4)
+    auto addFixedAtP = [&](int &left) {
+      if (fv != 1) { pins.push_back({-1, P}); --left; }
+      if (fv != 0 && left > 1) { fx = true; mn = mx = P; --left; }
+    };
+    int left = np;
+    if (shape == 0) { while (left-- > 0) pins.push_back({rc(), P}); }
+    else if (shape == 1) { addFixedAtP(left); left = std::max(left, 1); while (left-- > 0) pins.push_back({rc(), P}); }
+    else if (shape == 2) { pins.push_back({rc(), P}); pins.push_back({rc(), P}); left -= 2; while (left-- > 0) pins.push_back({rc(), rp()}); }
+    else if (shape == 3) {
+      if (fv == 2 && left > 2) { fx = true; mn = P; mx = P + D * g.uni(0, 2); left -= (mx != mn ? 2 : 1); } else { pins.push_back({-1, P}); --left; }
+      pins.push_back({rc(), P}); --left; while (left-- > 0) pins.push_back({rc(), rp()});
+    } else if (shape == 4) {
+      static const int num[] = {1, 2, 4, 0}; int k = (int)g.uni(0, 3);
+      long long delta = num[k] ? std::max(1LL, epsU * num[k] / 2) : 1; if (g.coin(50)) delta = -delta;
+      if (g.coin(40)) addFixedAtP(left);
+      left = std::max(left, 2);
+      pins.push_back({g.coin(15) ? -1 : rc(), P + delta}); --left; while (left-- > 0) pins.push_back({rc(), P});
+    } else {
+      while (left-- > 0) pins.push_back({g.coin(10) ? -1 : rc(), rp()});
+      if (g.coin(30)) { fx = true; mn = rp(); mx = mn + D * g.uni(0, 2); }
+    }
+    for (size_t i = pins.size(); i > 1; --i) std::swap(pins[i - 1], pins[g.uni(0, (long long)i - 1)]);    // which index coincides: any
+    s << " " << pins.size() << " ";
+    if (dyadic) s << qstrw(g.uni(1, 12), (int)g.uni(0, 3)); else s << qstrw(g.uni(1 << 12, 1 << 20), 17);
+    for (auto &p : pins) s << " " << p.first << " " << qstr(p.first == -1 ? p.second : p.second - pl[p.first], u);
+    s << " " << (fx ? 1 : 0);
+    if (fx) s << " " << qstr(mn, u) << " " << qstr(mx, u);
+  }
+  s << " " << nc;
+  for (int i = 0; i < nc; ++i) s << " " << qstr(pl[i], u);
+  s << " " << (wantPen ? 1 : 0);
+  if (wantPen) {
+    if (dyadic) s << " " << (1LL << g.uni(0, 6)) << " 0"; else s << " " << qstr(g.uni(410, 409600), 12);
+    for (int i = 0; i < nc; ++i) {
+      long long dd = g.coin(40) ? 0 : (dyadic ? (U << g.uni(0, 4)) : g.uni(1, 30 * U)) * (g.coin(50) ? 1 : -1);
+      s << " " << qstr(pl[i] + dd, u) << " ";
+      if (dyadic) s << qstrw(g.uni(1, 12), 2); else s << qstrw(g.uni(1 << 10, 1 << 19), 17);
+    }
+  }
+  return s.str();
+}
+
 int main(int argc, char **argv) {
   std::string mode = argc > 1 ? argv[1] : "run";
   if (mode == "gen") {
-    std::string what = argv[2]; SplitMix g((uint64_t)atoll(argv[3]) * 7919 + (what == "asm" ? 1 : what == "solve" ? 2 : what == "fasm" ? 4 : 3)); int count = atoi(argv[4]);
-    if (what == "asm") {
+    std::string what = argv[2]; SplitMix g((uint64_t)atoll(argv[3]) * 7919 + (what == "asm" ? 1 : what == "solve" ? 2 : what == "fasm" ? 4 : what == "coin" ? 5 : what == "fcoin" ? 6 : what == "scoin" ? 7 : 3)); int count = atoi(argv[4]);
+    if (what == "coin") {
+      for (int i = 0; i < count; ++i) { int m = (int)g.uni(1, 4); bool dy = g.coin(60); printf("ASM %s\n", genCoin(g, dy, m, g.coin(35)).c_str()); }
+    } else if (what == "fcoin") {
+      // weights around 1 (50 %), tiny (2^-100 .. 2^-124, 30 %) or huge (2^90 .. 2^110, 20 %) as in the fasm stream: with a floor of eps the
+      // quotient weight / max(eps, 0) stays finite in all three classes unless the weight itself is within 2^4 of FLT_MAX
+      for (int i = 0; i < count; ++i) {
+        int m = (int)g.uni(1, 4); bool dy = g.coin(40);
+        int cls = (int)g.uni(0, 9), k;
+        if (cls < 5) { gWShift = 0; k = (int)g.uni(-24, 24); }
+        else if (cls < 8) { gWShift = (int)g.uni(100, 124); k = (int)g.uni(-6, 12); }
+        else { gWShift = -(int)g.uni(90, 110); k = (int)g.uni(-12, 12); }
+        printf("FASM %d %s\n", k, genCoin(g, dy, m, g.coin(35), true).c_str());
+        gWShift = 0;
+      }
+    } else if (what == "asm") {
       for (int i = 0; i < count; ++i) {
         bool dy = g.coin(60); int m = (int)g.uni(0, 6);
         bool pen = (m >= 1 && m <= 4) && g.coin(50);
@@ -308,6 +397,14 @@ int main(int argc, char **argv) {
         else { gWShift = -(int)g.uni(90, 110); k = g.coin(60) ? (int)g.uni(-12, 12) : (int)g.uni(10, 30); }
         printf("FASM %d %s\n", k, genBody(g, dy, m, pen, false).c_str());
         gWShift = 0;
+      }
+    } else if (what == "scoin") {
+      // the solvers that linearise around a placement, on the bodies with exact coincidences
+      for (int i = 0; i < count; ++i) {
+        int kind = (int)g.uni(1, 4); int m = kind == 4 ? 1 : (kind == 3 ? 2 : (int)g.uni(1, 4));
+        static const char *tols[] = {"8589935 43", "11258999 40", "13743895 37"};
+        const char *tol = tols[g.uni(0, 2)]; int maxit = (int)g.uni(100, 1000);
+        printf("SOLVE %d %s %d %s\n", kind, tol, maxit, genCoin(g, g.coin(40), m, kind == 2 || kind == 4).c_str());
       }
     } else if (what == "solve") {
       for (int i = 0; i < count; ++i) {
